@@ -20,9 +20,9 @@ T = {
     text="Ownership discipline over core.py, time.py, reading.py, maths.py, finitedifference.py, numerical.py: no in-place sink (augmented assignment, subscript store, mutating method, out=) is reachable from a value that may share storage with a cached value, an fd attribute, or a caller-owned argument.",
     note="numpy/scipy/h5py internals trusted not to mutate arguments passed without out=."),
  "C03": dict(
-    technique="static analysis: typestate/pairing rules on the cache protocol (who-may-delete, paired deletion, strain factor, must-freeze dominance, termination ranking) over a statement CFG",
+    technique="static analysis: typestate/pairing rules on the cache protocol (who-may-delete, paired deletion, strain factor, must-freeze event simulation, termination ranking) and alias/ownership analysis restricted to cached values (ast + dataflow)",
     category="other", design="DESIGN.md section 9.2 and section 4 C03",
-    text="Every deletion site, the removal predicates, the freeze points and the loops of cleanup_cache are enumerated and decided structurally on all paths.",
+    text="Every deletion site, the removal predicates, the freeze points and the loops of cleanup_cache are enumerated and decided structurally on all paths; no in-place sink is reachable from a cached (hence possibly frozen) value.",
     note="Domain: clear_cache_every_nbr_calc >= 1, memory_threshold_inGB > 0; users do not delete from rel.data by hand."),
  "C04": dict(
     technique="static analysis: abstract interpretation of the tensor code (ast) into exact componentwise polynomials over opaque field atoms with per-slot index variance; einsum index-discipline rules; equality with reference index formulas evaluated in the same domain, per reachable configuration (vacuum flag, presence guards); unrolled symmetry/completeness table of populate_4Riemann",
@@ -107,8 +107,8 @@ T = {
  "C20": dict(
     technique="static analysis: must-pass-through bounds refusal, analysis/synthesis agreement and angle roles decided on symbolic values (exact normal forms of the expressions), module-state and loop-carried-state rules, integer-overflow domain of the normalisation (ast, exact arithmetic)",
     category="other", design="DESIGN.md section 9.2 and section 4 C20",
-    text="Three structural clauses: extrapolating interpolator is only reachable through the bounds refusal; decomposition and reconstruction iterate the same (l,m) and call sYlm identically (conjugated in analysis); inclination/azimuth values flow only into parameters of their role; per-radius values do not carry over between radii.",
-    note="Orthonormality, normalisation and phase of sYlm, interpolation exactness and convergence are NOT decided."),
+    text="sYlm equals the Goldberg closed form as an exact polynomial in cos(theta/2), sin(theta/2), exp(i phi) for 115 (s, l, m) cases and is regular at the poles; extrapolating interpolator is only reachable through the bounds refusal; decomposition and reconstruction iterate the same (l,m) and call sYlm identically (conjugated in analysis); inclination/azimuth values flow only into parameters of their role; per-radius values do not carry over between radii.",
+    note="sYlm is compared with the Goldberg closed form for |s| <= 2, l <= 4 (integers concrete, angles symbolic); larger l, the numerical quadrature error of the decomposition, interpolation exactness and convergence of the mode amplitudes are NOT decided."),
 }
 
 ENGINES = [
